@@ -174,7 +174,13 @@ pub fn c10_real(c: &RealCase, stats: &mut Stats) -> Result<(), String>
                 Some(f) =>
                 {
                     if f.0 != was.0 { return Err(format!("real fs: cleaned target {} came back with different bytes", t)); }
-                    if f.1 != was.1
+                    let ref_exec = w.model.eval(bgoal.as_deref()).files.get(t).map(|x| x.1);
+                    if f.1 != was.1 && ref_exec.is_some() && ref_exec != Some(was.1)
+                    {
+                        // the permission was not up to date before the clean (see c10.rs)
+                        stats.class("permission-was-not-up-to-date-before-the-clean");
+                    }
+                    else if f.1 != was.1
                     {
                         let twin = before.iter().any(|(u, g)| u != t && g.0 == was.0);
                         if twin { stats.known(super::c10::KF_EXEC); }
